@@ -3812,13 +3812,14 @@ class WhereAlign(MaskAlign):
 
 
 class MapAlign(MaybeAlignPartitions):
-    _parameters = ["frame", "other", "op", "na_action", "meta"]
+    # the operands are handed to Map as they are
+    _parameters = ["frame", "other", "na_action", "meta"]
     _projection_passthrough = False
     _expr_cls = Map
 
 
 class MapIndexAlign(MapAlign):
-    _parameters = MaskAlign._parameters + ["is_monotonic"]
+    _parameters = MapAlign._parameters + ["is_monotonic"]
 
 
 class OpAlignPartitions(MaybeAlignPartitions):
